@@ -93,8 +93,12 @@ func genC04() string {
 				}
 			}
 		case *ast.BinaryExpr:
-			if x.Op == token.EQL && strings.HasSuffix(exprText(x.Y), ".X509Subject") {
-				prefixCmp = exprText(x.X)
+			if x.Op == token.EQL || x.Op == token.NEQ {
+				if strings.HasSuffix(exprText(x.Y), ".X509Subject") {
+					prefixCmp = exprText(x.X)
+				} else if strings.HasSuffix(exprText(x.X), ".X509Subject") {
+					prefixCmp = exprText(x.Y)
+				}
 			}
 		}
 		return true
@@ -139,11 +143,15 @@ func genC04() string {
 						maxAttrs, maxFound = bl.Value, true
 					}
 				}
-				// if attribute.Type == "S" { attribute.Type = "ST" }
-				if be.Op == token.EQL && strings.HasSuffix(exprText(be.X), ".Type") && len(x.Body.List) == 1 {
-					if from, ok := strLit(be.Y); ok {
+				// if attribute.Type == "S" { attribute.Type = "ST" } - in either orientation, on any variable
+				if be.Op == token.EQL && len(x.Body.List) == 1 && x.Else == nil {
+					v, lit := be.X, be.Y
+					if _, ok := strLit(lit); !ok {
+						v, lit = be.Y, be.X
+					}
+					if from, ok := strLit(lit); ok {
 						if as, ok := x.Body.List[0].(*ast.AssignStmt); ok && len(as.Lhs) == 1 && len(as.Rhs) == 1 &&
-							exprText(as.Lhs[0]) == exprText(be.X) {
+							exprText(as.Lhs[0]) == exprText(v) {
 							if to, ok := strLit(as.Rhs[0]); ok {
 								aliasFrom, aliasTo, aliasFound = from, to, true
 							}
